@@ -20,6 +20,18 @@ from . import caps, common
 from .session import get_execer, load_session
 
 BASE = 1_600_000_000  # mtime of logical tick 0 (whole seconds)
+# One logical tick is 1/16 s (exactly representable in the float st_mtime the implementation compares),
+# so consecutive ticks usually fall into the SAME wall-clock second: an implementation that compares
+# freshness at a coarser granularity than the file system records is seen running stale code.
+TICK_NS = 62_500_000
+
+
+def stamp_ns(tick):
+    return BASE * 1_000_000_000 + tick * TICK_NS
+
+
+def utime_tick(path, tick, follow_symlinks=True):
+    os.utime(path, ns=(stamp_ns(tick), stamp_ns(tick)), follow_symlinks=follow_symlinks)
 
 # script bodies: pure Python / a bare subprocess line whose meaning depends on the names bound in
 # the execution context (`rec -l` is `![rec -l]` unless `rec` and `l` are variables) / user exception
@@ -96,7 +108,7 @@ class Rig:
         ld = os.path.join(self.srcdir, "ld")
         if not os.path.islink(ld):
             os.symlink(".", ld)
-        os.utime(ld, (BASE + LINK_TICK, BASE + LINK_TICK), follow_symlinks=False)
+        utime_tick(ld, LINK_TICK, follow_symlinks=False)
 
     def address(self, via):
         """Prepare the addressing mode `via` and return (path to run, real file name).  The file symlink
@@ -107,7 +119,7 @@ class Rig:
             if os.path.lexists(l):
                 os.unlink(l)
             os.symlink(real, l)
-            os.utime(l, (BASE + LINK_TICK, BASE + LINK_TICK), follow_symlinks=False)
+            utime_tick(l, LINK_TICK, follow_symlinks=False)
         if not os.path.exists(os.path.join(self.srcdir, "o.xsh")) or not os.path.islink(os.path.join(self.srcdir, "ld")):
             self.setup_links()
         return path, real
@@ -142,14 +154,15 @@ class Rig:
 
     @staticmethod
     def set_tick(path, tick):
-        os.utime(path, (BASE + tick, BASE + tick))
+        utime_tick(path, tick)
 
     @staticmethod
     def get_tick(path):
         """The logical tick of a file, or None when its mtime was not set by the harness (wall clock)."""
         st = os.stat(path)
-        t = st.st_mtime_ns // 1_000_000_000 - BASE
-        if st.st_mtime_ns % 1_000_000_000 or not (-1000 <= t <= 1_000_000):
+        d = st.st_mtime_ns - BASE * 1_000_000_000
+        t = d // TICK_NS
+        if d % TICK_NS or not (-1000 <= t <= 1_000_000):
             return None
         return t
 
